@@ -635,7 +635,11 @@ pub fn gen_c04(rng: &mut Rng, tier: Tier) -> MsgScn {
         }
         creds.push(c);
     }
-    let s1 = (gen::gen_session_string(rng), gen::gen_session_string(rng));
+    let mut s1 = (gen::gen_session_string(rng), gen::gen_session_string(rng));
+    // a third of the verifiers identify themselves by an OpenID4VP style client id
+    if rng.chance(1, 3) {
+        s1.0 = rng.pick(&["x509_san_dns:verifier.example.com", "redirect_uri:https://verifier.example/cb", "did:web:verifier.example", "openid_federation:https://rp.example", "verifier_attestation:rp-7", "x509_san_uri:https://rp.example/x", "https://Verifier.Example.org/"]).to_string();
+    }
     let s2 = (format!("{}-2", s1.0), format!("{}-2", s1.1));
     let kb = |rng: &mut Rng, s: &(String, String), k: &str| Some(KbArgs { aud: s.0.clone(), nonce: s.1.clone(), key: k.to_string(), alg: kb_alg_for(rng, k) });
     // sometimes the empty selection: a key-bound presentation that discloses nothing
@@ -677,6 +681,16 @@ pub fn gen_c04(rng: &mut Rng, tier: Tier) -> MsgScn {
         cases.push(c);
     }
     let alg_of = |k: &str| crate::keys::alg_of(k).to_string();
+    // always: an honestly signed KB-JWT for an audience / a nonce that is a near miss of the
+    // expected one (every kind of near miss once)
+    for field in [KbField::Aud, KbField::Nonce] {
+        for _ in 0..3 {
+            let mut c = Case { session: sess1.clone(), ..plain(Base::Pres(0), rand_fmt(rng)) };
+            let base = if field == KbField::Aud { &s1.0 } else { &s1.1 };
+            c.faults.push(Fault::KbFieldEdit { key: hk0.clone(), alg: alg_of(&hk0), aud: s1.0.clone(), nonce: s1.1.clone(), field: field.clone(), value: Some(json!(near_miss(rng, base))), also: vec![] });
+            cases.push(c);
+        }
+    }
     let n_cases = match tier {
         Tier::Quick => 48,
         Tier::Thorough => 200,
